@@ -83,6 +83,15 @@ Explained(e) ==
     [] e.op = "solve" -> IF SomePivotZero(e.pre)
                            THEN e.panic /\ e.zero                      \* refuses, and says why
                            ELSE ~e.panic /\ e.imzero /\ Checkable(e.xs, e.L) /\ ResidualZero(TDense(e.pre), e.xs, e.L, e.r)
+    \* ---- Gaussian-integer data on which the complex float arithmetic is exact: judged like Rat, over Gaussian rationals ----
+    [] e.op = "det_cx" -> ~e.panic /\ e.rq[2] = 1 /\ e.rqi[2] = 1 /\ <<e.rq[1], e.rqi[1]>> = CTDet(e.pre, e.prei)
+    [] e.op = "solve_cx" -> IF CSomePivotZero(e.pre, e.prei)
+                              THEN e.panic /\ e.zero
+                              ELSE /\ ~e.panic /\ Checkable(e.xs, e.L) /\ Checkable(e.xsi, e.L)
+                                   /\ ResidualZeroCx(TDense(e.pre), TDense(e.prei), e.xs, e.xsi, e.L, e.r, e.ri)
+    [] e.op = "div_cx" -> /\ ~e.panic /\ (e.s # 0 \/ e.si # 0)
+                          /\ SameTri(e.pre, TLin(e.rt, e.s, e.rti, -e.si))
+                          /\ SameTri(e.prei, TLin(e.rt, e.si, e.rti, e.s))
     \* floats on integer data where only the zero tests are exact: the outcome (answer or refusal) is decided by the model
     [] e.op = "solve_outcome" -> IF SomePivotZero(e.pre) THEN e.panic /\ e.zero ELSE ~e.panic /\ e.finite
     \* ---- floats ----
@@ -120,7 +129,7 @@ NextPart(e, v, ok) ==
     ELSE IF e.op \in Mutators THEN After(e)
     ELSE IF e.op = "resize" THEN e.post
     ELSE v
-Unjudged(e) == IsSeq(e) /\ e.cid = bad /\ e.op \in {"det", "solve"}
+Unjudged(e) == IsSeq(e) /\ e.cid = bad /\ e.op \in {"det", "solve", "det_cx", "solve_cx"}
 NoTri == [n |-> 0, sub |-> <<>>, main |-> <<>>, sup |-> <<>>]
 
 Init == l = 1 /\ cur = NoTri /\ curi = NoTri /\ bad = -1 /\ TLCSet(1, 0)
@@ -131,10 +140,12 @@ Step == /\ l <= NRec
                  ELSE Mismatch(l, e, IF Unjudged(e) THEN "unjudged-after-mismatch" ELSE IF PreOK(e) THEN e.op ELSE "operand-is-not-the-model-state")
               /\ bad' = IF ok THEN bad ELSE e.cid
               /\ IF e.op = "scale_cx"
-                   THEN IF e.src = "mul_assign"
+                   THEN IF e.src \in {"mul_assign", "rebind_mul"}
                           THEN /\ cur' = (IF ok THEN TLin(e.pre, e.s, e.prei, -e.si) ELSE e.rt)
                                /\ curi' = (IF ok THEN TLin(e.pre, e.si, e.prei, e.s) ELSE e.rti)
                           ELSE UNCHANGED <<cur, curi>>
+                   ELSE IF e.op = "div_cx" /\ e.src \in {"div_assign", "rebind_div"}
+                   THEN cur' = e.rt /\ curi' = e.rti
                    ELSE IF TwoParts(e) THEN UNCHANGED <<cur, curi>>
                    ELSE IF ImPart(e) THEN cur' = cur /\ curi' = NextPart(e, curi, ok)
                    ELSE cur' = NextPart(e, cur, ok) /\ curi' = curi
